@@ -2,6 +2,7 @@ package riscv
 
 import (
 	"fmt"
+	"mltwist/pkg/expr"
 	"mltwist/pkg/model"
 	"strings"
 )
@@ -30,6 +31,10 @@ type instruction struct {
 
 	// instrType refers the type of the instruction.
 	instrType *instructionType
+
+	// xlen is width of general purpose registers of the architecture
+	// variant the instruction belongs to. Zero value means unknown width.
+	xlen expr.Width
 }
 
 // newInstruction crates a new instance of instruction. The new instruction is
